@@ -32,14 +32,22 @@ class Resolver:
         self.repo = repo
         self._mro_cache: dict[str, list[ClassInfo]] = {}
         self._attr_types: dict[str, dict[str, ClassInfo]] = {}
-        self._method_index: dict[str, list[FunctionInfo]] = {}
-        for m in repo.modules.values():
-            for ci in m.classes.values():
-                for name, fn in ci.methods.items():
-                    self._method_index.setdefault(name, []).append(fn)
+        self._method_index_cache: dict[str, list[FunctionInfo]] | None = None
         self.stats = {"calls": 0, "resolved": 0, "heuristic": 0}
         self._tip: set[tuple[str, int]] = set()
         self._type_cache: dict[tuple[str, int], ClassInfo | None] = {}
+
+    def methods_named(self, name: str) -> list[FunctionInfo]:
+        if self._method_index_cache is None:
+            self._method_index_cache = {}
+        if name not in self._method_index_cache:
+            out: list[FunctionInfo] = []
+            for m in self.repo.modules_with_text("def " + name):
+                for ci in m.classes.values():
+                    if name in ci.methods:
+                        out.append(ci.methods[name])
+            self._method_index_cache[name] = out
+        return self._method_index_cache[name]
 
     # ------------------------------------------------------------------ classes
     def class_of(self, fi: FunctionInfo) -> ClassInfo | None:
@@ -274,10 +282,10 @@ class Resolver:
                 if meth is not None:
                     return [meth]
                 # subclasses may define it
-                subs = [fn for fn in self._method_index.get(f.attr, []) if fn.cls is not None and t in self.mro(fn.cls)]
+                subs = [fn for fn in self.methods_named(f.attr) if fn.cls is not None and t in self.mro(fn.cls)]
                 return subs
             if heuristic and f.attr not in _COMMON_METHOD_NAMES and not hasattr(builtins, f.attr):
-                cands = self._method_index.get(f.attr, [])
+                cands = self.methods_named(f.attr)
                 if len(cands) == 1:
                     self.stats["heuristic"] += 1
                     return list(cands)
